@@ -30,6 +30,13 @@ func runWithGenTape(r *rng, failAt int, f func()) string {
 	return tapeString(t.log)
 }
 
+// runWithChunkedTape: the reader returns at most `chunk` bytes per Read call (short reads, nil error)
+func runWithChunkedTape(r *rng, chunk int, f func()) string {
+	t := &tapeReader{gen: r.fork(), failAt: -1, chunk: chunk}
+	withTape(t, f)
+	return tapeStringC(t.log, chunk)
+}
+
 func eciesEncLine(r *rng, pub pt, msg []byte, failAt int) (string, []byte) {
 	var out []byte
 	tape := runWithGenTape(r, failAt, func() { out, _ = bec.Encrypt(pubOf(pub.x, pub.y), msg) })
@@ -204,6 +211,42 @@ func genC19(e *emitter, r *rng, thorough bool) {
 			pl, _ := json.Marshal(map[string]interface{}{"n": i, "s": string(randB58(r, 5))})
 			tape := runWithGenTape(r, -1, func() { _, _ = envelope.NewJSONEnvelope(json.RawMessage(pl)) })
 			e.emit("rng.env", "env.new "+hx(pl)+" "+tape)
+		}
+	}
+	// short reads: a reader that hands out at most 1 / 7 / 8 / 15 / 31 bytes per Read call
+	for _, ch := range []int{1, 7, 8, 15, 31} {
+		tape := runWithChunkedTape(r, ch, func() { _, _ = bec.NewPrivateKey(bec.S256()) })
+		e.emit("rng.key.short", "rng.key "+tape)
+		tape = runWithChunkedTape(r, ch, func() { _, _ = bip32.GenerateSeed(40) })
+		e.emit("rng.seed.short", "rng.seed 40 "+tape)
+		tape = runWithChunkedTape(r, ch, func() { _, _ = bip39.GenerateEntropy(256) })
+		e.emit("rng.entropy.short", "rng.entropy 256 "+tape)
+		pub := mulG(big.NewInt(int64(1000 + ch)))
+		msg := r.bytes(20)
+		tape = runWithChunkedTape(r, ch, func() { _, _ = bec.Encrypt(pubOf(pub.x, pub.y), msg) })
+		e.emit("rng.ecies.short", fmt.Sprintf("ecies.enc %s %s %s %s", nhx(pub.x), nhx(pub.y), hx(msg), tape))
+		key := r.bytes(32)
+		blk, _ := aes.NewCipher(key)
+		tape = runWithChunkedTape(r, ch, func() { _, _ = crypto.Encrypt(blk, msg) })
+		e.emit("rng.cfb.short", fmt.Sprintf("cfb.enc %s %s %s", hx(key), hx(msg), tape))
+		pl := []byte(`{"short":true}`)
+		tape = runWithChunkedTape(r, ch, func() { _, _ = envelope.NewJSONEnvelope(json.RawMessage(pl)) })
+		e.emit("rng.env.short", "env.new "+hx(pl)+" "+tape)
+	}
+	// many calls in ONE process on one tape: a pool of randomness that is filled once and runs dry
+	{
+		key := r.bytes(16)
+		blk, _ := aes.NewCipher(key)
+		nMany := 300
+		if thorough {
+			nMany = 1500
+		}
+		for i := 0; i < nMany; i++ {
+			txt := []byte("same plaintext")
+			tape := runWithGenTape(r, -1, func() { _, _ = crypto.Encrypt(blk, txt) })
+			if i%10 == 0 || i > 250 {
+				e.emit("rng.cfb.many", fmt.Sprintf("cfb.enc %s %s %s", hx(key), hx(txt), tape))
+			}
 		}
 	}
 	// failing reads at each position
@@ -483,6 +526,20 @@ func genC15(e *emitter, r *rng, thorough bool) {
 		e.emit("mn.fuzz", "bip39.mn "+hx(r.bytes(r.intn(44)))+" "+hx(r.bytes(r.intn(6))))
 		key := r.bytes([]int{16, 24, 32}[r.intn(3)])
 		e.emit("cfb.fuzz", "cfb.dec "+hx(key)+" "+hx(raw))
+	}
+	// length bytes at the top of the byte range with enough input behind them (byte arithmetic wraps at 256)
+	for _, lb := range []byte{0x7f, 0x80, 0xfb, 0xfc, 0xfd, 0xfe, 0xff} {
+		for _, total := range []int{8, 129, 130, 253, 254, 255, 256, 257, 258, 300} {
+			x := make([]byte, total)
+			copy(x, der)
+			x[0] = 0x30
+			x[1] = lb
+			e.emit("der.longlen", "der.parse "+hx(x))
+			e.emit("der.longlen", "der.lax "+hx(x))
+			y := r.bytes(total)
+			y[0], y[1] = 0x30, lb
+			e.emit("der.longlen-rand", "der.lax "+hx(y))
+		}
 	}
 	// the D3 witness and friends
 	for _, w := range []string{"zzz", "zoo0", "\xff", "zzzzzzzz", "{"} {
